@@ -29,7 +29,7 @@ theorem s1_lowercase_keeps_length (env : Env) (ws : List Str) :
   simp only [lowerCases, List.map_map]
   apply List.map_congr_left
   intro w _
-  simp only [Function.comp]
+  simp only [Function.comp, lowerOne]
   split <;> simp_all
 
 theorem value_ofStr (s : Str) : (Grapheme.ofStr s).value = s := by simp [Grapheme.ofStr, Grapheme.value, Grapheme.chars]
